@@ -259,6 +259,7 @@ for Atomic<'a, ItemType, OgreAllocatorType, BUFFER_SIZE, MAX_STREAMS> {
 
     #[inline(always)]
     fn drop_resources(&self, stream_id: u32) {
+        vp!("mc.drop.drain", stream_id);
         // events this listener left unconsumed must not be inherited by the next `Stream` to be given the same `stream_id`
         let dispatcher_manager = unsafe { self.dispatcher_managers.get_unchecked(stream_id as usize) };
         while dispatcher_manager.consume_movable().is_some() {}
